@@ -16,6 +16,8 @@ thorough     : + layouts of up to 7 parameters sampled by TLC -simulate, + defau
 from __future__ import annotations
 
 import ast
+import functools
+import itertools
 import json
 import multiprocessing as mp
 import os
@@ -44,8 +46,8 @@ CASES: List[Dict[str, Any]] = []          # set before forking the pool: workers
 RICH = False
 
 
-def cfg_text(maxp: int) -> str:
-    return (f"SPECIFICATION Spec\nCONSTANTS MaxP = {maxp}\n          AnnStates = {{\"none\", \"plain\", \"string\"}}\n"
+def cfg_text(maxp: int, anns: Tuple[str, ...] = ("none", "plain", "string")) -> str:
+    return (f"SPECIFICATION Spec\nCONSTANTS MaxP = {maxp}\n          AnnStates = {{{', '.join(json.dumps(a) for a in anns)}}}\n"
             "          RetStates = {\"none\", \"None\", \"plain\", \"string\"}\nCONSTRAINT Emit\n"
             "INVARIANT SameParameters\nINVARIANT SameReturn\nINVARIANT ShownIsValid\n")
 
@@ -104,6 +106,7 @@ def write_def(name: str, rec: Dict[str, Any], ex: Dict[str, Any], deco: str = ""
     return f"{deco}def {name}({', '.join(parts)}){r}: {body}"
 
 
+@functools.lru_cache(maxsize=None)
 def dump(expr_text: Optional[str]) -> Optional[str]:
     if expr_text is None:
         return None
@@ -112,7 +115,10 @@ def dump(expr_text: Optional[str]) -> Optional[str]:
 
 def check_ast_view(rec: Dict[str, Any], ex: Dict[str, Any], src: str) -> None:
     """machinery: CPython's ast.arguments of the written def == the spec's Ast(layout)"""
-    fn = ast.parse(src).body[-1]
+    try:
+        fn = ast.parse(src).body[-1]
+    except SyntaxError as e:
+        raise MachineryError(f"spec Valid accepts a layout CPython rejects: {src!r}: {e}")
     a = fn.args  # type: ignore[attr-defined]
     spec = rec["ast"]
     name = lambda i: f"p{i}"
@@ -205,15 +211,37 @@ def work(span: Tuple[int, int, int]) -> Dict[str, Any]:
             lines.append("@overload")
             lines.append(write_def(f"g{lo}_{gi}", cases[k], exs[k], body="..."))
         lines.append(f"def g{lo}_{gi}(*args, **kwargs): pass")
-    system = model.System()
     msgs: List[Tuple[str, str]] = []
-    system.msg = lambda section, msg, *a, **kw: msgs.append((section, msg))  # type: ignore[method-assign]
-    builder = system.systemBuilder(system)
     modname = f"m{lo}"
-    builder.addModuleString("\n".join(lines) + "\n", modname=modname)
-    builder.buildModules()
 
-    out: Dict[str, Any] = {"violations": [], "drift": [], "n": 0, "n_overloads": 0, "samples": []}
+    def build(src_lines: List[str]) -> Tuple[Any, Optional[str]]:
+        system = model.System()
+        system.msg = lambda section, msg, *a, **kw: msgs.append((section, msg))  # type: ignore[method-assign]
+        builder = system.systemBuilder(system)
+        builder.addModuleString("\n".join(src_lines) + "\n", modname=modname)
+        try:
+            builder.buildModules()
+        except Exception as e:           # the analysis aborted: find the definition(s) responsible below
+            return None, f"{type(e).__name__}: {e}"
+        return system, None
+
+    whole, whole_err = build(lines)
+    out: Dict[str, Any] = {"violations": [], "drift": [], "n": 0, "n_overloads": 0, "samples": [], "batch_aborted": int(whole is None)}
+
+    def lookup(name: str, own_lines: List[str]) -> Tuple[Any, Optional[str]]:
+        """the Function object; when the batch build aborted, from a build of this definition alone"""
+        if whole is not None:
+            return whole.allobjects.get(f"{modname}.{name}"), None
+        alone, err = build(lines[:2] + own_lines)
+        if alone is None:
+            return None, err
+        return alone.allobjects.get(f"{modname}.{name}"), None
+
+    def aborted(rec: Dict[str, Any], origin: str, src: str, err: str) -> None:
+        out["violations"].append({"invariant": "SignatureIsDisplayed", "failed": ["SignatureIsDisplayed"], "origin": origin, "input": src,
+                                  "layout": {"params": rec["params"], "ret": rec["ret"]}, "expected": "a displayed signature",
+                                  "observed": {"text": None, "exception": err},
+                                  "key": f"abort:{origin}:{[p[0] for p in rec['params']]}:{[p[1] for p in rec['params']]}"})
 
     def judge(rec: Dict[str, Any], ex: Dict[str, Any], text: str, origin: str, src: str) -> None:
         want = expected_of(rec, ex)
@@ -242,15 +270,24 @@ def work(span: Tuple[int, int, int]) -> Dict[str, Any]:
             out["drift"].append({"origin": origin, "input": src, "model": mt, "real": text})
 
     for k, rec in enumerate(cases):
-        fn = system.allobjects.get(f"{modname}.f{lo + k}")
         src = lines[2 + k]
+        fn, err = lookup(f"f{lo + k}", [src])
+        if err is not None:
+            out["n"] += 1
+            aborted(rec, "def", src, err)
+            continue
         text = flatten_text(format_signature(fn)) if isinstance(fn, model.Function) else "<missing>"
         out["n"] += 1
         judge(rec, exs[k], text, "def", src)
         if k == 0:
             out["samples"].append({"source": src, "displayed": text})
     for gi, grp in enumerate(groups):
-        fn = system.allobjects.get(f"{modname}.g{lo}_{gi}")
+        own = []
+        for k in grp:
+            own += ["@overload", write_def(f"g{lo}_{gi}", cases[k], exs[k], body="...")]
+        fn, err = lookup(f"g{lo}_{gi}", own + [f"def g{lo}_{gi}(*args, **kwargs): pass"])
+        if err is not None:
+            continue                      # already reported for the plain definitions of the same layouts
         ovs = list(fn.overloads) if isinstance(fn, model.Function) else []
         page = [flatten_text(x) for x in format_overloads(fn)] if isinstance(fn, model.Function) else []
         page = [x for x in page if x.startswith("def ")]
@@ -284,21 +321,63 @@ def run_cases(ctx: Ctx, cases: List[Dict[str, Any]], rich: bool, per: int = 1500
     else:
         with mp.get_context("fork").Pool(min(len(spans), max(1, (os.cpu_count() or 4) - 1))) as pool:
             res = pool.map(work, spans, chunksize=1)
-    tot = {"violations": [], "drift": [], "n": 0, "n_overloads": 0, "samples": [], "warnings": 0}
+    tot = {"violations": [], "drift": [], "n": 0, "n_overloads": 0, "samples": [], "warnings": 0, "batch_aborted": 0}
     for r in res:
         for k in ("violations", "drift", "samples"):
             tot[k] += r[k]
-        for k in ("n", "n_overloads", "warnings"):
+        for k in ("n", "n_overloads", "warnings", "batch_aborted"):
             tot[k] += r[k]
     return tot
 
 
+def cpython_valid_layouts(maxp: int) -> set:
+    """
+    CPython as the oracle of Valid: every parameter list that can be WRITTEN with <= maxp parameters (kinds in syntactic
+    order, at most one *a and one **k, defaults anywhere except on *a / **k) is compiled; the accepted ones are returned as
+    tuples of (kind, has_default).
+    """
+    ok = set()
+    shapes = [(k, d) for k in ("PO", "PK", "VP", "KO", "VK") for d in (False, True) if not (d and k in ("VP", "VK"))]
+    order = {"PO": 0, "PK": 1, "VP": 2, "KO": 3, "VK": 4}
+    for n in range(maxp + 1):
+        for lay in itertools.product(shapes, repeat=n):
+            ks = [k for k, _ in lay]
+            if any(order[a] > order[b] for a, b in zip(ks, ks[1:])) or ks.count("VP") > 1 or ks.count("VK") > 1:
+                continue            # not expressible in the syntax at all
+            rec = {"params": [[k, d, "none"] for k, d in lay], "ret": "none"}
+            src = write_def("f", rec, {"ann": {}, "default": {i: "0" for i, (_, d) in enumerate(lay, 1) if d}, "ret": None})
+            try:
+                compile(src, "<layout>", "exec")
+            except SyntaxError:
+                continue
+            ok.add(tuple((k, d) for k, d in lay))
+    return ok
+
+
+def enumerate_layouts(ctx: Ctx, runs: List[Tuple[int, Tuple[str, ...]]]) -> Tuple[List[Dict[str, Any]], List[str]]:
+    design: List[str] = []
+    seen: Dict[str, Dict[str, Any]] = {}
+    for maxp, anns in runs:
+        r = ctx.tlc("Signature", cfg_text(maxp, anns), workers=12, check=True, coverage=False, timeout=1500,
+                    cfg_name=f"Signature_{maxp}_{len(anns)}.cfg")
+        design += [v for v in r.violated if v not in design]
+        got = set()
+        for x in r.printed:
+            seen.setdefault(json.dumps([x["params"], x["ret"]]), x)
+            got.add(tuple((p[0], p[1]) for p in x["params"]))
+        want = cpython_valid_layouts(maxp)
+        if got != want:
+            raise MachineryError(f"spec Valid disagrees with CPython for <= {maxp} parameters: only in spec "
+                                 f"{sorted(got - want)[:3]}, only in CPython {sorted(want - got)[:3]}")
+        ctx.extra.setdefault("layout_shapes_cross_checked_with_cpython_compile", {})[str(maxp)] = len(want)
+    return [seen[k] for k in sorted(seen)], design
+
+
 def run(ctx: Ctx) -> int:
-    r = ctx.tlc("Signature", cfg_text(4), workers=12, check=True, coverage=False, timeout=1500)
-    design = list(r.violated)
-    cases = sorted(r.printed, key=lambda x: json.dumps([x["params"], x["ret"]]))
-    if len(cases) != 102844:
-        raise MachineryError(f"TLC emitted {len(cases)} layouts, expected 102844 (25711 layouts x 4 return annotations)")
+    # quick: every layout of <= 4 parameters with annotations {absent, string} and of <= 3 parameters with
+    # {absent, plain, string}; thorough: every layout of <= 4 parameters with all three
+    runs = [(4, ("none", "string")), (3, ("none", "plain", "string"))] if ctx.quick else [(4, ("none", "plain", "string"))]
+    cases, design = enumerate_layouts(ctx, runs)
     ctx.exhaustive = True
     tot = run_cases(ctx, cases, rich=False)
     ctx.extra["layouts_exhaustive"] = len(cases)
@@ -306,7 +385,8 @@ def run(ctx: Ctx) -> int:
     if not ctx.quick:
         r2 = ctx.tlc("Signature", cfg_text(7), workers=1, check=True, simulate="num=6000", depth=12, seed=ctx.seed, timeout=1500)
         design += [v for v in r2.violated if v not in design]
-        seen, sim = set(), []
+        seen: set = set()
+        sim: List[Dict[str, Any]] = []
         for x in r2.printed:
             k = json.dumps([x["params"], x["ret"]])
             if k not in seen:
@@ -334,6 +414,7 @@ def run(ctx: Ctx) -> int:
     ctx.extra["definitions_built"] = tot["n"] + (sim_tot["n"] if sim_tot else 0)
     ctx.extra["overloads_built"] = tot["n_overloads"] + (sim_tot["n_overloads"] if sim_tot else 0)
     ctx.extra["observations_violating"] = nviol
+    ctx.extra["batches_whose_build_aborted"] = tot["batch_aborted"] + (sim_tot["batch_aborted"] if sim_tot else 0)
     ctx.extra["invalid_parameters_warnings"] = tot["warnings"] + (sim_tot["warnings"] if sim_tot else 0)
 
     # ---- negative control: a default moved to the neighbour / a dropped separator must be rejected by the judge
@@ -386,7 +467,13 @@ def replay(ctx: Ctx, path: str) -> int:
     is_ov = w["origin"].startswith("overload")
     name = src.split("def ", 1)[1].split("(", 1)[0]
     b.addModuleString(pre + src + ("\ndef %s(*args, **kwargs): pass\n" % name if is_ov else "\n"), modname="m")
-    b.buildModules()
+    try:
+        b.buildModules()
+    except Exception as e:
+        print(f"replay: still violated: analysis aborts with {type(e).__name__}: {e}")
+        print(f"VIOLATION property=C14 replay={path}")
+        ctx.cleanup()
+        return 1
     fn = system.allobjects[f"m.{name}"]
     if w["origin"] == "overload-page":
         text = flatten_text(format_signature(fn.overloads[0]))
